@@ -256,3 +256,131 @@ class TwoEvaluators(Harness):
 
 def harnesses(tier):
     return [ConvertArm('unit'), ConvertArm('const_unit'), ConvertArm('frac'), TwoEvaluators()]
+
+
+# --------------------------------------------------------------------------------------------------------------
+# "naming the missing factor": Context::describe_unit, whose text goes into the suggestions of a conformance error
+
+QUANTITIES = {'length': {'m': 1}, 'time': {'s': 1}, 'velocity': {'m': 1, 's': -1}, 'area': {'m': 2}, 'acceleration': {'m': 1, 's': -2},
+              'frequency': {'s': -1}}
+
+
+def denote_description(text):
+    """dimensionality (dict) denoted by a description such as `length^2`, `velocity`, `length / time^2`, `'kg' time`"""
+    import re as _r
+    out = {}
+    sign = 1
+    for tok in text.split():
+        if tok == '/':
+            sign = -1
+            continue
+        m = _r.match(r"^(?:'([^']+)'|([A-Za-z_]+))(?:\^(-?\d+))?$", tok)
+        if not m:
+            return None
+        p = int(m.group(3)) if m.group(3) else 1
+        if m.group(1):
+            d = {m.group(1): 1}
+        elif m.group(2) in QUANTITIES:
+            d = QUANTITIES[m.group(2)]
+        else:
+            return None
+        for k, e in d.items():
+            out[k] = out.get(k, 0) + sign * p * e
+    return {k: e for k, e in out.items() if e}
+
+
+class DescribeUnit(Harness):
+    name = 'context.describe_unit'
+    props = ('C03', 'C04')
+    entry_name = 'Context::describe_unit'
+    loop_bound = 40
+    _concrete = None
+
+    def __init__(self, hi):
+        self.hi = hi
+        self.describe = ('Context::describe_unit on an arbitrary dimensionality over m, s (|exponent| <= %d) with the quantity table %s: the description '
+                         '(a quantity, a quantity squared, a reciprocal, or a product / quotient of named factors) denotes exactly that dimensionality') % (
+            hi, sorted(QUANTITIES))
+        self.bounds = ['base units m, s; |exponent| <= %d; %d named quantities' % (hi, len(QUANTITIES))]
+        self.assumptions = ['the described dimensionality is not dimensionless (the only caller, conformance_err, is reached for differing dimensionalities)']
+        self.expect_classes = ['return']
+
+    def build(self, ex, I):
+        from mirsym.lib import MapV, freeze
+        D, ent = sym_dim(ex, I, 'd', ('m', 's'), lo=-self.hi, hi=self.hi)
+        q = MapV()
+        for n, d in QUANTITIES.items():
+            ds = dim({k: (True, e) for k, e in d.items()})
+            q.ent[freeze(ds)] = [ds, True, n]
+        reg = make_struct(ex, 'Registry', {'quantities': q})
+        ctxv = make_struct(ex, 'Context', {'registry': reg, 'temporaries': MapV(), 'previous_result': none(ex)})
+        ex.env['fmt_int_range'] = (-self.hi, self.hi)
+        # callers (conformance_err) describe the quotient of two *different* dimensionalities: never dimensionless.
+        # (Called directly on a dimensionless number the function panics in `buf.remove(0)`; no query reaches that.)
+        ex.assume(z3.Or(*[zbool(p) for p, e in ent.values()]))
+        return [ref(ctxv), ref(number(rational(I.real('v')), D))], {'ent': ent}
+
+    def entry(self, ex, args, ctx):
+        return ex.call(None, 'loader::context::Context::describe_unit', list(args))
+
+    def post(self, ex, ctx, outcome):
+        t = deref_all(outcome[1])
+        recip, text = t.fields[0], deref_all(t.fields[1])
+        if not isinstance(text, str):
+            return [('the description is text', False)]
+        den = denote_description(text)
+        if den is None:
+            return [('the description %r is made of quantity names, quoted base units, powers and one `/`' % text, False)]
+        r = simp(recip) if is_z3(recip) else recip
+        if not isinstance(r, bool):
+            return [('the reciprocal flag is decided on this path', False)]
+        obs = []
+        for u in ('m', 's'):
+            p, e = ctx['ent'][u]
+            have = z3.If(zbool(p), zint(e), 0)
+            want = den.get(u, 0) * (-1 if r else 1)
+            obs.append(('%r%s denotes the exponent of %s' % (text, ' (reciprocal)' if r else '', u), have == want))
+        extra = [k for k in den if k not in ('m', 's')]
+        obs.append(('no foreign base unit in %r' % text, not extra))
+        return obs
+
+    def native(self, inputs, label):
+        d = conc_dim(inputs, 'd', ('m', 's'))
+        unit = ' '.join('%s^%d' % (k, e) for k, e in d.items()) or '1'
+        return [{'mode': 'query', 'text': '1 kg -> 1 kg %s' % unit if d else '1 kg -> 1 kg'}]
+
+    def judge(self, inputs, label, obs):
+        # the suggestion of a conformance error names the factor: `multiply left side by <description>` etc.
+        q = obs[0]
+        if q.get('outcome') == 'panic' or q.get('render_panic'):
+            return True, 'panic %s' % (q.get('panic') or q.get('render_panic'))
+        import re as _r
+        d = conc_dim(inputs, 'd', ('m', 's'))
+        sug = ((q.get('json') or {}).get('suggestions')) or []
+        found = []
+        for s_ in sug:
+            m = _r.match(r'^(multiply|divide) (left|right) side by (.*)$', s_)
+            if m:
+                found.append(m.groups())
+        bad = []
+        real_q = {'length': {'m': 1}, 'time': {'s': 1}, 'velocity': {'m': 1, 's': -1}, 'area': {'m': 2}, 'acceleration': {'m': 1, 's': -2},
+                  'frequency': {'s': -1}, 'volume': {'m': 3}, 'jerk': {'m': 1, 's': -3}, 'specific_volume': None}
+        for verb, side, desc in found:
+            toks_ok = all(t_ == '/' or _r.sub(r"\^-?\d+$", '', t_).strip("'") in list(real_q) + ['m', 's'] for t_ in desc.split())
+            if not toks_ok:
+                continue
+            den = denote_description(desc)
+            if den is None:
+                continue
+            # left = 1 kg, right = 1 kg * unit: multiplying the LEFT side by `unit` (or dividing the right by it) conforms
+            want = d if (verb, side) in (('multiply', 'left'), ('divide', 'right')) else {k: -e for k, e in d.items()}
+            if den != want:
+                bad.append('suggestion %r denotes %s, the missing factor is %s' % (' '.join((verb, side, 'side by', desc)), den, want))
+        return bool(bad), '; '.join(bad) or 'suggestions %s name the missing factor' % sug
+
+
+_c03_prev = harnesses
+
+
+def harnesses(tier):   # noqa: F811
+    return _c03_prev(tier) + [DescribeUnit(3 if tier == 'quick' else 4)]
